@@ -495,6 +495,9 @@ pub struct EvOracles {
     pub c09: bool,
     /// C16: adoption of pre-spawned entities, one client entity per server entity.
     pub c16: bool,
+    /// C10: a child and its parent (synchronized relationship) whose mutations are in one
+    /// tick's traffic travel in the same mutate message.
+    pub c10_groups: bool,
 }
 
 #[derive(Clone, Debug, Serialize)]
@@ -1176,6 +1179,36 @@ impl EvCell {
                     "stale-acknowledgement",
                     format!("c{c} acknowledged mutate message #{idx}, which it was never handed in its current session (something of an earlier session was applied)"),
                 ));
+            }
+        }
+        if self.oracles.c10_groups && x.sim.last_frame_was_tick {
+            let frame = x.sim.server_frames;
+            for c in 0..self.clients() {
+                let mut msg_of: BTreeMap<u64, u32> = BTreeMap::new();
+                for w in x.sim.wire.iter().rev().take_while(|w| w.server_frame == frame).filter(|w| w.client == c && w.channel == 1) {
+                    let Some((_, recs)) = crate::props::c10::entity_records(self.cfg.track, &w.bytes) else { continue };
+                    for (bits, _) in recs {
+                        msg_of.insert(bits, w.id);
+                    }
+                }
+                for slot in 0..x.sim.ents.len() as u8 {
+                    let Some(e) = x.sim.alive(slot) else { continue };
+                    let Some(p) = x.sim.server.world().get::<ChildOf>(e).map(|c| c.parent()) else { continue };
+                    if let (Some(a), Some(b)) = (msg_of.get(&e.to_bits()), msg_of.get(&p.to_bits())) {
+                        if a != b {
+                            return Err(self
+                                .v(
+                                    "group-in-two-messages",
+                                    format!(
+                                        "tick {}: e{} and its parent were both mutated, but their mutations were sent to c{c} in different mutate messages",
+                                        x.sim.last_tick,
+                                        slot + 1
+                                    ),
+                                )
+                                .feat("kind:group"));
+                        }
+                    }
+                }
             }
         }
         if self.oracles.c09 && x.sim.orphan_messages > 0 {
